@@ -30,7 +30,7 @@ REQUIRED = ["contract:CVR.make_phantoms", "accounting_checked:style", "accountin
             "pool_means_with_phantoms_checked", "pool_means_with_phantoms_checked:assorter_bound_not_1",
             "audit_wide_max_cards_differs_from_stratum_bound", "phantom_mvrs_for_sampled_phantom_cards_checked",
             "phantom_mvrs_for_sampled_phantom_cards_checked:another_prefix", "contest_with_card_bound_zero", "call_on_a_list_that_already_holds_phantoms:no_style",
-            "phantom_manual_record_built_by_from_raire", "phantom_mvrs_for_manifest_lookups_checked", "phantom_mvrs_for_manifest_lookups_checked:hart", "assorter:plurality", "assorter:supermajority", "assorter:irv"]
+            "phantom_manual_record_built_by_from_raire", "phantom_mvrs_for_manifest_lookups_checked", "phantom_mvrs_for_manifest_lookups_checked:hart", "contests_dict_keyed_by_something_other_than_the_identifier", "assorter:plurality", "assorter:supermajority", "assorter:irv"]
 ASSUMPTIONS = ["card bounds >= number of records listing the contest; with style the input list holds no phantoms (the "
                "function is documented for 'the reported CVRs'); without style it may",
                "a phantom labelled pooled inside a pooled batch is scored with that batch's mean by design (C03 depends "
@@ -80,7 +80,8 @@ def post_phantoms(rec, result, a, k, old):
         return bad("phantom_pool_label_wrong", {"want": [old["tally_pool"], old["pool"]]})
     if nph:
         rec.count("phantoms_created")
-    real_counts = {cid: sum(1 for s in old["snap"] if cid in s[1] and not s[2]) for cid in contests}
+    # (the dict's keys are the caller's handles; what records list is the Contest object's identifier)
+    real_counts = {cid: sum(1 for s in old["snap"] if con.id in s[1] and not s[2]) for cid, con in contests.items()}
     for cid, con in contests.items():
         if con.cvrs != real_counts[cid]:
             return bad("contest_cvrs_count_wrong", {"contest": cid, "cvrs": int(con.cvrs), "want": real_counts[cid]})
@@ -90,7 +91,7 @@ def post_phantoms(rec, result, a, k, old):
         shortfalls = []
         seen_positive = False
         for cid, con in contests.items():
-            listed = sum(1 for c in lst if c.has_contest(cid))
+            listed = sum(1 for c in lst if c.has_contest(con.id))
             sf = want_bound[cid] - real_counts[cid]
             shortfalls.append(sf)
             if sf == 0 and seen_positive:
@@ -179,6 +180,10 @@ def run_case(es, rec):
             ghost.cards = 0
             contests2[ghost.id] = ghost
             rec.count("contest_with_card_bound_zero")
+        if len(es["cards"]) % 4 == 1:
+            # the caller keeps its contests under other handles than their identifiers (contest names, say)
+            contests2 = {f"name of {k_}": v_ for k_, v_ in contests2.items()}
+            rec.count("contests_dict_keyed_by_something_other_than_the_identifier")
         ok, again = rec.guard("c08.call:make_phantoms:second_call", CVR.make_phantoms, audit=sim.audit, contests=contests2,
                               cvr_list=sim.real_list, prefix=es.get("phantom_prefix", "phantom-1-"), tally_pool=tp, pool=pool)
         if not ok:
